@@ -7,7 +7,7 @@
        UpdateActiveMode / ClearActiveMode) has succeeded (lemma C19_changed_meaning);
      - every operation is one atomic step (the model mutex), so a concurrent execution is a
        schedule over whole operations (theorems C19_concurrent_is_sequential, C19_concurrent_invariants). *)
-From SC Require Import Base.Prelude Electric.Model Electric.ModelProofs.
+From SC Require Import Base.Prelude Electric.Model Electric.ModelProofs Electric.C19Judge Electric.JudgeProofs.
 
 (* 1. at most one mode is marked normal, after any sequence of operations *)
 Theorem C19_at_most_one_normal : forall initial ops, wf_initial initial ->
@@ -126,6 +126,24 @@ Theorem C19_concurrent_invariants : forall initial sched threads, wf_initial ini
   normal_count (modes s) <= 1 /\ (changed s = true -> has (mid (active s)) (modes s) = true).
 Proof. exact concurrent_invariants. Qed.
 Print Assumptions C19_concurrent_invariants.
+
+(* the predicate the check evaluates on observations (C19Judge.step_ok, eleven clauses) holds of
+   every model step from every state satisfying the invariant ... *)
+Theorem C19_step_ok_model : forall s now o, Inv s ->
+  step_ok (modes s) (active s) (changed s) now o (obs_of (step s now o)) = true.
+Proof. exact step_ok_model. Qed.
+Print Assumptions C19_step_ok_model.
+
+(* ... hence every guarded sequential history that the model reproduces satisfies C19_ok: within
+   the guard a predicate failure always comes with a model mismatch (verdict 3, never 2).
+   Partial: stated for sequential histories (KSeq); for the concurrent and stream cases the
+   corresponding statement (soundness of the linearization search and of the event replay) is not
+   proved, C19_ok there is evaluated on the observation only. *)
+Theorem C19_judge_sound_partial : forall initial o0 steps,
+  C19_guard (KSeq initial o0 steps) = true -> agrees (KSeq initial o0 steps) = true ->
+  C19_ok (KSeq initial o0 steps) = true.
+Proof. exact judge_sound_seq. Qed.
+Print Assumptions C19_judge_sound_partial.
 
 (* the defects of the pinned commit, kept as theorems about the old definitions *)
 Theorem C19_at_most_one_normal_v0_refuted :
